@@ -3,6 +3,10 @@ import LeptosModel.Proofs.ViewAttrs
 namespace Leptos.View
 open Leptos.Dom
 
+-- `R`: how the attribute list of an element relates to the fresh render's (`Eq` for the static
+-- fragment, lookup-equality `AttrsEq` where removal and re-insertion change the order)
+variable {R : List (String × String) → List (String × String) → Prop}
+
 /-! ## serialisation of a represented state -/
 
 theorem allSome_append {α : Type} : ∀ (l1 l2 : List (Option α)) (a b : List α),
@@ -91,7 +95,7 @@ theorem serN_leaf {d : Dom} {x : Id} {k : Kind} {s : String} {par : Option Id}
 
 mutual
 /-- a represented state serialises to `render v` -/
-theorem Rep.ser {d : Dom} : ∀ (v : View) (st : State) (par : Option Id), Rep d v st par →
+theorem Rep.ser {d : Dom} : ∀ (v : View) (st : State) (par : Option Id), Rep Eq d v st par →
     ∀ n, v.depth ≤ n → serListN n d st.roots = some (render v)
   | .text s, st, par, h, n, hn => by
     cases st <;> simp only [Rep] at h
@@ -146,7 +150,7 @@ theorem Rep.ser {d : Dom} : ∀ (v : View) (st : State) (par : Option Id), Rep d
     apply serListN_append _ d _ _ _ _ (RepList.ser vs _ par h.1 (m + 1) (by omega))
     exact serListN_single _ d _ _ (by simpa using serN_leaf h.2 (Or.inr rfl) m)
 theorem RepList.ser {d : Dom} : ∀ (vs : List View) (sts : List State) (par : Option Id),
-    RepList d vs sts par → ∀ n, View.depthList vs ≤ n →
+    RepList Eq d vs sts par → ∀ n, View.depthList vs ≤ n →
     serListN n d (State.rootsList sts) = some (renderList vs)
   | [], sts, par, h, n, _ => by
     cases sts <;> simp [RepList] at h
